@@ -1,0 +1,29 @@
+//go:build verif
+
+package reconciledloader
+
+import (
+	"github.com/ipfs/go-cid"
+
+	"github.com/ipfs/go-graphsync"
+)
+
+// VerifQueuedItem is a copy of one remote item waiting in a loader's queue
+// (verification hook, build tag verif).
+type VerifQueuedItem struct {
+	Link     cid.Cid
+	Action   graphsync.LinkAction
+	HasBlock bool
+	BlockLen int
+}
+
+// VerifRemoteQueue reports, under the loader's lock, whether the loader accepts remote items and
+// the remote items queued and not yet consumed, in order (verification hook, build tag verif).
+func (rl *ReconciledLoader) VerifRemoteQueue() (open bool, items []VerifQueuedItem) {
+	rl.lock.Lock()
+	defer rl.lock.Unlock()
+	for it := rl.remoteQueue.head; it != nil; it = it.next {
+		items = append(items, VerifQueuedItem{Link: it.link, Action: it.action, HasBlock: it.block != nil, BlockLen: len(it.block)})
+	}
+	return rl.open, items
+}
